@@ -136,6 +136,7 @@ class _State:
         self.vec_writes = 0
         self.mat_writes = 0
         self.band = False
+        self.arrs = []      # float64 arrays the harness has handed to array constructors (kept alive on purpose)
 
     def pick(self, i):
         """live object #i counted from the most recent one (0 = current, 1 = previous, ...), modulo."""
@@ -323,7 +324,23 @@ def _step(S, op, what):
     if name in ("c_list6", "c_arr6", "c_arr61"):
         v = _f6(op["v"])
         arg = [float(x) for x in v] if name == "c_list6" else _as_shape(v, "col" if name == "c_arr61" else "flat")
+        if name != "c_list6":
+            S.arrs.append(arg)
         return _new(S, sut(tm, arg)), (vec, v, [])
+    if name == "c_arr6_again":
+        # a second transform built from the SAME array object an earlier constructor was given (or, if there is
+        # none yet, from a fresh one): two objects described by one caller-owned array must stay independent
+        if S.arrs:
+            arg = S.arrs[-1 - (int(op["b"]) % len(S.arrs))]
+            S.ctx.label("constructed twice from one array object")
+        else:
+            arg = _as_shape(_f6(op["v"]), "flat")
+            S.arrs.append(arg)
+        return _new(S, sut(tm, arg)), (vec, np.array(arg, dtype=float).reshape(6).copy(), [])
+    if name == "c_from_slice":
+        # built from the full slice t[0:6] of a live object (a NumPy-style view of its six-vector)
+        src = S.pick(op["b"])
+        return _new(S, sut(tm, src.t[0:6])), (vec, np.array(src.v, dtype=float).reshape(6).copy(), [])
     if name in ("c_list3", "c_arr3", "c_arr31"):
         w = np.array(op["w"], dtype=float).reshape(3)
         arg = [float(x) for x in w] if name == "c_list3" else _as_shape(w, "col" if name == "c_arr31" else "flat")
@@ -849,7 +866,8 @@ def _constructors():
         _fd("c_quat_list", v=_v6(), s=_QS), _fd("c_quat_arr", v=_v6(), s=_QS),
         _fd("c_rpy_list3", e=_w3()), _fd("c_rpy_arr3", e=_w3()),
         _fd("c_rpy_list6", v=_v6()), _fd("c_rpy_arr6", v=_v6()),
-        _fd("c_mat", v=_v6()), _fd("c_tm", b=_IDX), _fd("c_arr_of_tm", b=_IDX), _fd("c_default"))
+        _fd("c_mat", v=_v6()), _fd("c_tm", b=_IDX), _fd("c_arr_of_tm", b=_IDX), _fd("c_default"),
+        _fd("c_arr6_again", b=_IDX, v=_v6()), _fd("c_from_slice", b=_IDX))
 
 
 def _setters():
